@@ -30,7 +30,7 @@ ASSUMPTIONS = [
 COMPONENTS = {"real": ["Transmitter._reset/_next/walk_forward", "Folds.as_time", "PartitionTimeRanges", "TradingEnv.reset/step"],
               "harness": ["delivery model", "seed sweeps"], "stub": []}
 PROBE_FLOORS = {"episode_length_exact": 248, "refused_when_nothing_fits": 30, "all_starts_reached": 29, "overlapping_folds": 50,
-                "walk_forward_run": 29, "sampling_span": 21, "reset_argument_override": 20, "length_equals_fold_size": 30, "foreign_prng_draws": 57, "resets_on_other_folds_in_between": 15}
+                "walk_forward_run": 29, "walk_forward_on_nanosecond_stamps": 20, "sampling_span": 21, "reset_argument_override": 20, "length_equals_fold_size": 30, "foreign_prng_draws": 57, "resets_on_other_folds_in_between": 15}
 
 PROFILE = {
     "n_min": 3, "n_max": 14, "n_long": 40, "p_long": 0.1, "c_min": 1, "c_max": 2, "p_bar": 1.0, "extras_max": 4,
@@ -190,6 +190,8 @@ def walk_forward_stage(scenario, violate, probe):
         if a != G[c] or b != G[e]:
             violate("walk_forward", "as_time() maps test window [{},{}] to {}..{} expected {}..{}".format(c, e, a, b, G[c], G[e]), kind="as_time")
             return None
+    if len(G) % 3 != 2 and not nanosecond_arm(G, wf, got, violate, probe):
+        return None
     sc = copy.deepcopy(scenario)
     e2 = sc["envs"][0]
     e2["folds"] = {"wf{}".format(j): [core.iso(a), core.iso(b)] for j, (a, b) in enumerate(times)}
@@ -208,6 +210,58 @@ def walk_forward_stage(scenario, violate, probe):
     if script:
         probe("walk_forward_run")
     return sc
+
+
+def nanosecond_arm(G, wf, got, violate, probe):
+    """The same grid stamped by a feed with nanosecond resolution (every stamp gets a few hundred nanoseconds on top):
+    the windows in time must begin and end exactly on grid stamps, and an episode on each test window - the windows
+    handed back as folds, one quote per timestep - visits exactly that window's timesteps."""
+    import pandas as pd
+    from tradingenv.transmitter import Transmitter
+    from tradingenv.env import TradingEnv
+    from tradingenv.contracts import ETF
+    from tradingenv.spaces import BoxPortfolio
+    from tradingenv.events import EventNBBO
+    import warnings
+    Gn = [pd.Timestamp(g) + pd.Timedelta((37 * k) % 900 + 1, unit="ns") for k, g in enumerate(G)]
+    try:
+      with warnings.catch_warnings():
+          warnings.simplefilter("ignore")     # (the track record stores microsecond stamps and says so)
+          ft = Transmitter(list(Gn)).walk_forward(wf["train"], wf["test"], wf["sliding"]).as_time()
+          cols = [list(ft.train_start), list(ft.train_end), list(ft.test_start), list(ft.test_end)]
+          for j, idx in enumerate(got):
+              for name, col, k in zip(("train_start", "train_end", "test_start", "test_end"), cols, idx):
+                  if pd.Timestamp(col[j]) != Gn[k]:
+                      violate("walk_forward", "nanosecond-stamped grid: as_time() gives {} {} for window {}, expected the grid stamp {} (position {})".format(
+                          name, pd.Timestamp(col[j]).isoformat(), j, Gn[k].isoformat(), k), kind="as_time_ns")
+                      return False
+          folds = {"wf{}".format(j): [cols[2][j], cols[3][j]] for j in range(len(got))}
+          tr = Transmitter(list(Gn), folds)
+          c = ETF("NSX")
+          tr.add_events([EventNBBO(t, c, 100.0 + k, 100.0 + k) for k, t in enumerate(Gn)])
+          env = TradingEnv(action_space=BoxPortfolio([c]), transmitter=tr)
+          for j, (_, _, a, b) in enumerate(got):
+              if b == a:
+                  continue        # a one-timestep window has no decision to make
+              env.reset(fold="wf{}".format(j))
+              visited = [pd.Timestamp(env.now())]
+              for _ in range(len(G) + 2):
+                  _o, _r, done, _i = env.step(np.array([0.0]))
+                  visited.append(pd.Timestamp(env.now()))
+                  if done:
+                      break
+              if visited != Gn[a:b + 1]:
+                  violate("walk_forward", "nanosecond-stamped grid: the episode on test window {} (positions {}..{}) visited {} timesteps {}.. expected the {} timesteps of the window".format(
+                      j, a, b, len(visited), [v.isoformat() for v in visited[:2]], b - a + 1), kind="episode_ns")
+                  return False
+          probe("walk_forward_on_nanosecond_stamps")
+    except Exception as e:
+        site = core.library_site(e)
+        if site is None:
+            raise       # the harness's own failure
+        violate("unexpected_exception", "nanosecond-stamped grid: walk-forward / episode raised {!r} ({})".format(e, site), exc=core.exc_name(e), where="walk_forward_ns")
+        return False
+    return True
 
 
 def execute(scenario):
